@@ -57,6 +57,11 @@ def tasks(tier, seed):
                     continue
                 out.append({"key": f"iterate/n3/limit{lim}/{'plus' if plus else 'plain'}/prefix={pf}", "kind": "iterate", "n": 3, "limit": lim,
                             "plus": plus, "prefix": pf})
+    # reveal limits ABOVE the number of viable coalitions ("every reveal limit >= 1")
+    for n_, lim in ((3, 4), (3, 6), (4, 11)) if tier == "quick" else ((3, 4), (3, 5), (3, 6), (4, 11), (4, 12)):
+        for plus in (False, True):
+            out.append({"key": f"iterate/n{n_}/limit{lim}/{'plus' if plus else 'plain'}/prefix=[]/above", "kind": "iterate", "n": n_, "limit": lim,
+                        "plus": plus, "prefix": []})
     for lim in ((1,) if tier == "quick" else (1, 2)):
         for plus in (False, True):
             nterm = 10 if lim == 1 else 45
@@ -140,7 +145,8 @@ def claims(params, inp, out, lg):
             sum(1 << i for i in c) for s in range(k + 1) for c in itertools.combinations(range(nc), s))))
         cl.append(("ranking-is-a-bijection", out["id_to_rank_of_rank_to_id"] == list(range(len(r2i)))))
         cl.append(("ranking-ordered-by-set-size", all(F.popcount(r2i[i]) <= F.popcount(r2i[i + 1]) for i in range(len(r2i) - 1))))
-        cl.append(("one-minimiser-per-internal-node", out["minimizers"] == sum(comb(nc, s) for s in range(min(limit - 1, nc) + 1))
+        # internal nodes = coalition sets that can still be extended: fewer than min(limit, #coalitions) members
+        cl.append(("one-minimiser-per-internal-node", out["minimizers"] == sum(comb(nc, s) for s in range(min(limit, nc)))
                    and out["regret_shape"] == [out["minimizers"], nc] and out["coalitions"] == nc))
         return cl
     zero, one = lg.const(0), lg.const(1)
